@@ -408,6 +408,27 @@ impl Check for C09 {
             0 | 1 => 0,
             _ => g.urange(1, 4),
         };
+        if run % 40_000 == 77 {
+            // populations beyond 16 bits (block-wise or 16-/32-bit shortcuts in making the children, in seeding
+            // their generators or in collecting them first matter here); the largest one serially
+            let k = run / 40_000;
+            let n = match k % 6 {
+                0 => 65_536,
+                1 => 66_560,
+                2 => 131_072,
+                3 => 262_144,
+                4 => g.log_uniform(65_536, 200_000),
+                _ => 69_632,
+            };
+            let threads = if n > 140_000 { 0 } else { threads };
+            let first = match k % 3 {
+                0 => Vec::new(),
+                1 => vec![g.usize_below(n)],
+                _ => vec![n - 1],
+            };
+            let steps = if first.is_empty() { vec![first] } else { vec![first, Vec::new()] };
+            return Sc::Maker { n, steps, draws: 1, threads };
+        }
         if g.chance(1, 12) {
             return Sc::SetPop { n: if g.chance(1, 30) { g.log_uniform(10, 400) } else { g.urange(0, 9) }, steps: g.urange(1, 4), modulus: *g.pick(&[1u64, 2, 3, 1000]), threads };
         }
